@@ -147,5 +147,5 @@ ASSUMPTIONS = ["text sources only in this check (accounting, journal and evtx so
 
 def main(tier):
     n = 500 if tier == "quick" else 20000
-    cap = 240 if tier == "quick" else 3600
+    cap = 240 if tier == "quick" else 1500
     return engine.run_check(PROP, "c01", tier, n, cap, "exploration", RULE, ASSUMPTIONS)
